@@ -1,6 +1,7 @@
 //! C06 - decoding is strict: whatever from_bytes accepts re-encodes to the same bytes, and
 //! acceptance agrees with the reference key / signature framing (E1 over lengths x headers and
-//! over single fields; acceptance sets are products of independent fields).
+//! over single fields; acceptance sets are products of independent fields). For secret keys the oracle is
+//! three-valued: malformed => Err; well-formed NTRU basis with G in range => Ok; well-formed otherwise => either.
 
 use super::{found, Found};
 use crate::api::{Variant, V1024, V512};
@@ -15,6 +16,7 @@ struct Tally {
     cases: u64,
     accepted: u64,
     rejected: u64,
+    stricter: u64,
     found: BTreeMap<String, Found>,
     nviol: u64,
 }
@@ -28,6 +30,7 @@ impl Tally {
         self.cases += o.cases;
         self.accepted += o.accepted;
         self.rejected += o.rejected;
+        self.stricter += o.stricter;
         self.nviol += o.nviol;
         for (k, v) in o.found {
             self.found.entry(k).or_insert(v);
@@ -39,6 +42,9 @@ impl Tally {
         part.validated = self.cases;
         part.outcome(format!("accepted and re-encoded identically x{}", self.accepted));
         part.outcome(format!("rejected x{}", self.rejected));
+        if self.stricter > 0 {
+            part.outcome(format!("of these, well-formed secret-key fields that are not an NTRU basis with G in range (rejecting them is outside the property) x{}", self.stricter));
+        }
         part.set("violating_cases", json!(self.nviol));
         for (_, f) in self.found {
             ctx.violation(f.key, f.what, f.case);
@@ -70,6 +76,22 @@ fn ref_accepts<V: Variant>(which: &str, b: &[u8]) -> bool {
     }
 }
 
+/// A well-formed secret-key string is one the property obliges nobody to accept unless it is what a key generator
+/// can have written: f invertible modulo q, G = g F / f exists over the integers with f G - g F = q and fits its
+/// 8-bit field (reference implementations recompute G on import and refuse the key otherwise).
+fn sk_is_ntru_basis(n: usize, b: &[u8]) -> bool {
+    let Some((f, g, cf)) = keycodec::sk_decode(b, n) else { return false };
+    let Some(finv) = crate::refmodel::poly::inv_q(&f) else { return false };
+    let gf = crate::refmodel::poly::mul_q(&g, &cf);
+    let cg: Vec<i64> = crate::refmodel::poly::mul_q(&gf, &finv).iter().map(|&x| crate::refmodel::zq::centred(x)).collect();
+    if cg.iter().any(|&x| x.abs() > 127) {
+        return false;
+    }
+    let a = crate::refmodel::poly::mul_z(&f, &cg);
+    let c = crate::refmodel::poly::mul_z(&g, &cf);
+    (0..n).all(|i| a[i] - c[i] == if i == 0 { Q as i128 } else { 0 })
+}
+
 fn strict_case<V: Variant>(t: &mut Tally, which: &str, b: &[u8], tag: &str) {
     t.cases += 1;
     let r: Result<Result<Vec<u8>, String>, String> = match which {
@@ -93,7 +115,9 @@ fn strict_case<V: Variant>(t: &mut Tally, which: &str, b: &[u8], tag: &str) {
         }
         Ok(Err(e)) => {
             t.rejected += 1;
-            if want {
+            if want && which == "SecretKey" && !sk_is_ntru_basis(V::N, b) {
+                t.stricter += 1;
+            } else if want {
                 t.viol(format!("{}:rejects-valid:{}", site, tag), format!("{}::from_bytes({}) = Err({}) but the reference format accepts it", site, short(b), e), case());
             }
         }
@@ -153,7 +177,7 @@ fn one_variant<V: Variant>(ctx: &mut Ctx, tier: Tier, own: &Objects, other: &Obj
             .reduce(Tally::default, reduce);
         let mut part = Part::new(
             &format!("lengths_headers_{}_{}", which, n),
-            &format!("{}::{}::from_bytes: lengths {} x all 256 header bytes x 6 body patterns; Ok => to_bytes reproduces the input; Ok/Err equals the reference framing", V::name(), which, if step == 1 { format!("1..={}", maxlen) } else { format!("1..47, every {}th up to {}, +-2 around each accepting length", step, maxlen) }),
+            &format!("{}::{}::from_bytes: lengths {} x all 256 header bytes x 6 body patterns; Ok => to_bytes reproduces the input; Err on everything the reference framing rejects, Ok on everything it accepts (secret keys: on every well-formed NTRU basis; other well-formed strings may be refused)", V::name(), which, if step == 1 { format!("1..={}", maxlen) } else { format!("1..47, every {}th up to {}, +-2 around each accepting length", step, maxlen) }),
         );
         part.exhaustive = true;
         t.into_part(ctx, part);
@@ -284,6 +308,57 @@ fn one_variant<V: Variant>(ctx: &mut Ctx, tier: Tier, own: &Objects, other: &Obj
     let mut part = Part::new(&format!("sk_reserved_subsets_{}", n), "the reserved value at every subset of size 2 and 3 (and two larger ones) of 12 field positions (first, second, middle, last field of f, g and F): all must be rejected");
     part.exhaustive = true;
     t.into_part(ctx, part);
+    // the reserved value inside a string that is otherwise beyond reproach: a genuine basis with F replaced by
+    // F + c X^k f (still an NTRU basis for the same f, g) for the (c, k) that put exactly -128 into some F fields and
+    // keep every other field in range. A decoder that cross-checks the key (NTRU equation, recomputed G) rejects
+    // every *planted* reserved value for that reason alone; here only the field test can reject. The shifts whose
+    // F stays within +-127 (and whose G fits) are well-formed keys and serve as the accepted counterpart.
+    {
+        let bases: Vec<(Vec<i64>, Vec<i64>, Vec<i64>)> = (0..4u64).filter_map(|s| { let (sk, _) = crate::api::key::<V>(s); keycodec::sk_decode(&V::sk_to_bytes(&sk), n) }).collect();
+        let mut jobs = vec![];
+        for (bi, _) in bases.iter().enumerate() {
+            for c in (1i64..=16).flat_map(|c| [c, -c]) {
+                for k in 0..n {
+                    jobs.push((bi, c, k));
+                }
+            }
+        }
+        let fbase = 8 + 2 * n * w;
+        let found_any: Vec<(Vec<u8>, bool)> = jobs
+            .par_iter()
+            .filter_map(|&(bi, c, k)| {
+                let (f, g, cf) = &bases[bi];
+                let sh = crate::refmodel::poly::shift_z(f, k);
+                let cfp: Vec<i64> = (0..n).map(|i| cf[i] + c * sh[i]).collect();
+                if cfp.iter().any(|&x| x < -128 || x > 127) {
+                    return None;
+                }
+                let reserved = cfp.iter().any(|&x| x == -128);
+                if !reserved && !(k < 4 && c.abs() == 1) {
+                    return None;
+                }
+                let clean: Vec<i64> = cfp.iter().map(|&x| if x == -128 { 0 } else { x }).collect();
+                let mut b = keycodec::sk_encode(f, g, &clean)?;
+                for (i, &x) in cfp.iter().enumerate() {
+                    if x == -128 {
+                        set_bits(&mut b, fbase + 8 * i, 8, 0x80);
+                    }
+                }
+                Some((b, reserved))
+            })
+            .collect();
+        let mut t = Tally::default();
+        let mut nres = 0;
+        for (b, reserved) in &found_any {
+            if *reserved {
+                nres += 1;
+            }
+            strict_case::<V>(&mut t, "SecretKey", b, if *reserved { "sk-reserved-in-ntru-basis" } else { "sk-shifted-basis" });
+        }
+        let mut part = Part::new(&format!("sk_reserved_in_consistent_basis_{}", n), &format!("four generated keys x F + c X^k f for c in {{+-1, ..., +-16}} and every k: the {} shifted bases in which some F fields are exactly -128 and all others in range, written with the reserved byte 0x80 (must be rejected: nothing but the field test can tell), and the in-range shifts for k < 4, c = +-1 (well-formed keys)", nres));
+        part.exhaustive = true;
+        t.into_part(ctx, part);
+    }
     let pk_pos: Vec<usize> = vec![0, 1, n / 2 - 1, n / 2, n - 2, n - 1];
     let mut t = Tally::default();
     for a in 0..pk_pos.len() {
